@@ -76,6 +76,11 @@ func vfSnapshot(c *Conn) vfSnap {
 // vfRoundTrip writes one unique payload each way and waits until both pumps delivered them.
 // Returns "" when both arrive intact.
 func vfRoundTrip(p *vfPair, tag string, wait time.Duration) string {
+	return vfRoundTripOpt(p, tag, wait, false)
+}
+
+// vfRoundTripOpt: with among set, payloads written earlier and still in flight may be read before the round trip's own.
+func vfRoundTripOpt(p *vfPair, tag string, wait time.Duration, among bool) string {
 	c2s := []byte("c2s-" + tag + "-" + vfShortHash(tag, "c2s", fmt.Sprint(time.Now().UnixNano())))
 	s2c := []byte("s2c-" + tag + "-" + vfShortHash(tag, "s2c", fmt.Sprint(time.Now().UnixNano())))
 	nc := len(p.S.ReadsSnapshot())
@@ -99,13 +104,23 @@ func vfRoundTrip(p *vfPair, tag string, wait time.Duration) string {
 	}
 	deadline := time.Now().Add(wait)
 	for time.Now().Before(deadline) {
-		if len(p.S.ReadsSnapshot()) > nc && len(p.C.ReadsSnapshot()) > ns {
+		if !among && len(p.S.ReadsSnapshot()) > nc && len(p.C.ReadsSnapshot()) > ns {
 			break
+		}
+		if among && vfHasPayload(p.S.ReadsSnapshot()[nc:], c2s) && vfHasPayload(p.C.ReadsSnapshot()[ns:], s2c) {
+			return ""
 		}
 		time.Sleep(10 * time.Millisecond)
 	}
 	sr := p.S.ReadsSnapshot()
 	cr := p.C.ReadsSnapshot()
+	if among {
+		if !vfHasPayload(sr[nc:], c2s) {
+			return fmt.Sprintf("server never read the client's payload (pump err %v)", p.S.PumpErr()) + tail()
+		}
+
+		return fmt.Sprintf("client never read the server's payload (pump err %v)", p.C.PumpErr()) + tail()
+	}
 	if len(sr) <= nc {
 		return fmt.Sprintf("server never read the client's payload (pump err %v)", p.S.PumpErr()) + tail()
 	}
@@ -120,6 +135,16 @@ func vfRoundTrip(p *vfPair, tag string, wait time.Duration) string {
 	}
 
 	return ""
+}
+
+func vfHasPayload(reads [][]byte, pl []byte) bool {
+	for _, r := range reads {
+		if bytes.Equal(r, pl) {
+			return true
+		}
+	}
+
+	return false
 }
 
 func vfChainEqual(a, b [][]byte) bool {
